@@ -286,6 +286,31 @@ def run_other(case):
         ok = {rho.get(a, a): {p: rho.get(d, d) for p, d in cs.items()} for a, cs in a1.items()} == a2
         ok = ok and [rho.get(d, d) for d in d1] == d2 and v1 == v2
         return {"same": bool(ok), "detail": [a1, a2]}
+    if o["what"] == "sgrid":
+        def build(m):
+            n = lambda s_: m.get(s_, s_)
+            sp = " " if o["space"] else ""
+            ds = xr.Dataset(attrs={"Conventions": "SGRID-0.3"})
+            for d, k in (("xc", 4), ("xn", 3), ("yc", 4), ("yn", 5)):
+                ds = ds.assign_coords({n(d): np.arange(k)})
+            ds[n("grid")] = xr.DataArray(0, attrs={
+                "cf_role": "grid_topology", "topology_dimension": 2, "node_dimensions": f"{n('xn')} {n('yn')}",
+                "face_dimensions": f"{n('xc')}:{sp}{n('xn')} (padding:{sp}both) {n('yc')}:{sp}{n('yn')} (padding:{sp}none)"})
+            ds[n("data")] = ((n("yc"), n("xc")), np.arange(16.).reshape(4, 4) ** 1.2)
+            g = Grid(ds, periodic=False)
+            axes = {a: dict(g.axes[a].coords) for a in g.axes}
+            r = g.interp(ds[n("data")], "X", boundary="extend")
+            return axes, list(r.dims), r.values.ravel().tolist()
+        try:
+            a1, d1, v1 = build({})
+        except Exception as e:
+            return {"same": False, "detail": f"original raised {type(e).__name__}: {e}"[:200]}
+        try:
+            a2, d2, v2 = build(rho)
+        except Exception as e:
+            return {"same": False, "detail": f"renamed raised {type(e).__name__}: {e}"[:200]}
+        ok = {a: {p: rho.get(d, d) for p, d in cs.items()} for a, cs in a1.items()} == a2
+        return {"same": bool(ok and [rho.get(d, d) for d in d1] == d2 and v1 == v2), "detail": [a1, a2]}
     if o["what"] == "overlap_ufunc":
         from xgcm.grid_ufunc import apply_as_grid_ufunc
 
@@ -450,6 +475,14 @@ def generate(rng, tier):
                 rho = make_rho(rng, names, avoid=(tmp,))
                 rho[o["tname"] if role == "tname" else role] = tmp
                 cases.append({"kind": "transform", "rho": rho, "orig": o})
+    # ... every word of the SGRID attribute grammar as the name of each dimension of an SGRID dataset in turn
+    for word in ("padding", "high", "low", "both", "none", "padding:", "center"):
+        if ":" in word:
+            continue
+        for role in ("xc", "xn", "yc", "yn", "grid", "data"):
+            rho = make_rho(rng, ["xc", "xn", "yc", "yn", "grid", "data"], avoid=(word,))
+            rho[role] = word
+            cases.append({"kind": "other", "rho": rho, "orig": {"what": "sgrid", "space": rng.random() < 0.5}})
     # ... and every dummy name of the pool (names containing position words among them) for a user ufunc
     # under map_overlap
     for D in ["winner", "router", "x_inner", "outerY", "q", "Outer", "in", "uncentered", "left_", "Xright", "center"]:
